@@ -56,3 +56,32 @@ pub fn run_each_obs(msgs: &[&[u8]], cap: usize) -> (bool, Obs) {
 pub fn split_messages(s: &[u8]) -> (Vec<&[u8]>, &[u8]) {
     crate::spec::lexscan::split(s)
 }
+
+/// End (offset behind the terminator) of the first message of `x` as the *parser* finds it,
+/// if every unit of that message is accepted.
+pub fn first_message_end(x: &[u8]) -> Option<usize> {
+    use microscpi::parser;
+    use microscpi::Interface;
+    let root = Main.root_node();
+    let mut header = root;
+    let mut input = x;
+    loop {
+        match parser::parse(root, header, input) {
+            Ok((rest, None)) => return Some(x.len() - rest.len()),
+            Ok((rest, Some(call))) => {
+                if call.terminated {
+                    return Some(x.len() - rest.len());
+                }
+                if let Some(h) = call.header {
+                    header = h;
+                }
+                input = rest;
+                if input.is_empty() {
+                    return None;
+                }
+            }
+            Err(_) => return None,
+        }
+    }
+}
+
